@@ -149,7 +149,13 @@ def run_pc(a1, a2, th, l0, l1, l2, gname, rname, stocks, n, tol, gform='exogenou
     else:
         tre.SetExogenous('DEM_GOOD', path_text(GPATHS[gname], n + 2))
     dep.SetExogenous('r', path_text(RPATHS[rname], n + 2))
-    if stocks and gform != 'override':          # ('override': the book configuration has declared the book's stocks itself)
+    if stocks == 'custom':
+        # the user's own stocks, stated AFTER whatever the builder declared (the last statement counts)
+        hh.AddInitialCondition('F', 60.)
+        hh.AddInitialCondition('DEM_DEP', 40.)
+        hh.AddInitialCondition('AfterTax', 60.)
+        tre.AddInitialCondition('F', -60.)
+    elif stocks and gform != 'override':          # ('override': the book configuration has declared the book's stocks itself)
         hh.AddInitialCondition('F', 86.486)
         hh.AddInitialCondition('DEM_DEP', 64.865 if stocks != 'cash' else 0.0)
         hh.AddInitialCondition('AfterTax', 86.486)
@@ -246,6 +252,8 @@ def check_point(case):
             else:
                 ser = run_pc(case['a1'], case['a2'], case['th'], case['l0'], case['l1'], case['l2'], case['G'], case['r'], case['stocks'], n, tol, case.get('gform', 'exogenous'))
                 V0, B0 = (Fr('86.486'), Fr('64.865') if case['stocks'] != 'cash' else Fr(0)) if case['stocks'] else (Fr(0), Fr(0))
+                if case['stocks'] == 'custom':
+                    V0, B0 = Fr(60), Fr(40)
                 closed = pc_closed(a1, a2, th, frac(case['l0']), frac(case['l1']), frac(case['l2']), GPATHS[case['G']], RPATHS[case['r']], V0, B0, n)
         except Exception as e:
             if type(e).__name__ == 'ConvergenceError':
@@ -432,6 +440,10 @@ def run_unit(unit, tier):
                           'horizon': unit['horizon'], 'gform': 'equation'})
         cases.append({'model': fam, 'a1': unit['a1'], 'a2': unit['a2'], 'th': unit['th'], 'G': 'alternating', 'H0': 0,
                       'YDe0': 16 if fam == 'SIMEX1' else 0, 'horizon': unit['horizon'], 'gform': 'override'})
+        if fam == 'SIMEX1':
+            # the user's own initial expectation and wealth stated after the book's
+            cases.append({'model': fam, 'a1': unit['a1'], 'a2': unit['a2'], 'th': unit['th'], 'G': 'step20-25', 'H0': 80,
+                          'YDe0': 10, 'horizon': unit['horizon'], 'gform': 'override'})
     elif fam == 'PC':
         for l2, G, r, stocks in itertools.product([.01, 0.], ['const20', 'step20-25'], sorted(RPATHS), (False, True, 'cash')):
             cases.append({'model': 'PC', 'a1': unit['a1'], 'a2': unit['a2'], 'th': unit['th'], 'l0': unit['l0'], 'l1': unit['l1'], 'l2': l2,
@@ -439,6 +451,8 @@ def run_unit(unit, tier):
         base = {'model': 'PC', 'a1': unit['a1'], 'a2': unit['a2'], 'th': unit['th'], 'l0': unit['l0'], 'l1': unit['l1'], 'l2': .01, 'horizon': unit['horizon']}
         cases.append(dict(base, G='const0.8', r='step', stocks=True, gform='equation'))
         cases.append(dict(base, G='step20-25', r='step', stocks=True, gform='override'))
+        cases.append(dict(base, G='const20', r='const', stocks='custom', gform='override'))
+        cases.append(dict(base, G='const20', r='step', stocks='custom'))
     else:
         b = BOUNDS[tier]
         for a1, a2, th, G, H0 in itertools.product(b['alpha1'], b['alpha2'], b['theta'], sorted(GPATHS), (0, 80)):
